@@ -41,7 +41,12 @@ func c01(c *Ctx) {
 		nv := []int{3, 8, 14, 18, 24}[rng.Intn(5)]
 		progs = append(progs, genProg(rng, ProgOpts{MaxNodes: 8 + rng.Intn(50), Malformed: false, Phys: rng.Chance(60), Synth: rng.Chance(60), NVirt: nv, Branches: rng.Chance(70)}))
 	}
-	emitPipelineCases(c, progs, []pipeCheck{chkDiff, chkLive, chkAlloc, chkSim, chkDisc, chkBind}, 20, func(p *Prog, ob *Observed) bool {
+	progs = append(progs, cleanupCorpus()...)
+	crng := NewRNG(c.Seed + 2001)
+	for k := 0; k < 40; k++ {
+		progs = append(progs, genCleanupProg(crng))
+	}
+	emitPipelineCases(c, progs, []pipeCheck{chkDiff, chkLive, chkAlloc, chkSim, chkDisc, chkBind, chkCleanup, chkCFG}, 20, func(p *Prog, ob *Observed) bool {
 		return len(ob.Alloc) >= 2
 	})
 	c.Out.Plan.Rule = "corpus (pressure 15/16 GP, 5 high-byte, 8 opmask, implicit MULQ, masked self-compare) + random programs with 1..24 virtual registers of all widths/classes, author-chosen physical registers, implicit operands, synthetic multi-output instructions, branches and loops; non-trivial = at least two virtual registers were allocated; distinct by program text"
